@@ -34,14 +34,23 @@ type KeyID string
 // https://matrix.org/docs/spec/server_server/unstable.html#signing-json
 func SignJSON(signingName string, keyID KeyID, privateKey ed25519.PrivateKey, message []byte) (signed []byte, err error) {
 	preserve := struct {
-		Signatures map[string]map[KeyID]spec.Base64Bytes `json:"signatures"`
-		Unsigned   spec.RawJSON                          `json:"unsigned"`
+		Signatures map[string]map[KeyID]spec.Base64Bytes
+		Unsigned   spec.RawJSON
 	}{
 		Signatures: map[string]map[KeyID]spec.Base64Bytes{},
 	}
-	if err = json.Unmarshal(message, &preserve); err != nil {
+	// Look the two members up by their exact names: struct tags also match
+	// "Signatures", "UNSIGNED", etc. which are ordinary (signed) members.
+	var members map[string]json.RawMessage
+	if err = json.Unmarshal(message, &members); err != nil {
 		return nil, err
 	}
+	if raw, ok := members["signatures"]; ok {
+		if err = json.Unmarshal(raw, &preserve.Signatures); err != nil {
+			return nil, err
+		}
+	}
+	preserve.Unsigned = spec.RawJSON(members["unsigned"])
 	if message, err = sjson.DeleteBytes(message, "signatures"); err != nil {
 		return nil, err
 	}
@@ -81,14 +90,20 @@ func SignJSON(signingName string, keyID KeyID, privateKey ed25519.PrivateKey, me
 
 // ListKeyIDs lists the key IDs a given entity has signed a message with.
 func ListKeyIDs(signingName string, message []byte) ([]KeyID, error) {
-	var object struct {
-		Signatures map[string]map[KeyID]json.RawMessage `json:"signatures"`
-	}
+	// Look "signatures" up by its exact name: a struct tag also matches
+	// "Signatures" etc.
+	var object map[string]json.RawMessage
 	if err := json.Unmarshal(message, &object); err != nil {
 		return nil, err
 	}
+	var signatures map[string]map[KeyID]json.RawMessage
+	if raw, ok := object["signatures"]; ok {
+		if err := json.Unmarshal(raw, &signatures); err != nil {
+			return nil, err
+		}
+	}
 	var result []KeyID
-	for keyID := range object.Signatures[signingName] {
+	for keyID := range signatures[signingName] {
 		result = append(result, keyID)
 	}
 	return result, nil
